@@ -1,0 +1,24 @@
+//go:build verif
+
+package exprtransform
+
+import "mltwist/pkg/expr"
+
+// Instantiations of the generic tree utilities at every node kind, so that
+// the verifier (which checks generic code per instantiation present in the
+// program) covers all of them. Compiled only with the build tag verif; never
+// part of the normal build.
+func verifInstantiations() []interface{} {
+	return []interface{}{
+		FindAll[expr.Const],
+		FindAll[expr.RegLoad],
+		FindAll[expr.MemLoad],
+		FindAll[expr.Binary],
+		FindAll[expr.Less],
+		ReplaceAll[expr.Const],
+		ReplaceAll[expr.RegLoad],
+		ReplaceAll[expr.MemLoad],
+		ReplaceAll[expr.Binary],
+		ReplaceAll[expr.Less],
+	}
+}
